@@ -9,9 +9,9 @@ def main():
     c = Check("C03", a.tier, a.seed)
     if a.replay:
         r = json.load(open(a.replay)); c.seed, c.tier = r["seed"], r["tier"]
-    ok_mk, log = c.make(["Props/C03.vo", "Model/Plonk.vo"])
-    thms = theorems_of("Props/C03.v")
-    assumptions = c.audit("Props.C03", thms) if ok_mk and thms else {}
+    ok_mk, log = c.make(["Model/Plonk.vo"] + props("C03")[2])
+    thms = theorems_of(*props("C03")[0])
+    assumptions = c.audit(props("C03")[1], thms) if ok_mk and thms else {}
     binary = c.build_harness("release")
     casefile = os.path.join(c.work, "cases.txt")
     n, dist, fails, samples, positions = 0, {}, [], [], set()
